@@ -3,19 +3,21 @@
 (/tmp/wt/<seed-id>) into /verif/seeded/<seed-id>/ with meta.json"""
 import json, os, shutil, sys
 sid, prop, needs = sys.argv[1], sys.argv[2], sys.argv[3]
-wt = f"/tmp/wt/{sid}"
-conf = open(f"/tmp/wt/{sid}.confirm").read()
+base = os.environ.get("WT", "/tmp/wt")
+suffix = os.environ.get("SEED_SUFFIX", "")          # e.g. "b" for a second seeded change of the same property
+wt = f"{base}/{sid}"
+conf = open(f"{base}/{sid}.confirm").read()
 ok = ("exit=1" in conf.split("== demo WITHOUT")[0]) and ("exit=0" in conf.split("== demo WITHOUT")[1]) and "495 passed" in conf and "17 failed" in conf
 if not ok:
     print("NOT CONFIRMED:\n" + conf); sys.exit(1)
-dst = f"/verif/seeded/{sid}"
+dst = f"/verif/seeded/{sid}{suffix}"
 os.makedirs(dst, exist_ok=True)
-shutil.copy(f"/tmp/wt/{sid}.patch", f"{dst}/patch.diff")
+shutil.copy(f"{base}/{sid}.patch", f"{dst}/patch.diff")
 demo = [f for f in os.listdir(wt) if f.startswith("demo_") and f.endswith(".py")][0]
 shutil.copy(f"{wt}/{demo}", f"{dst}/{demo}")
 if os.path.exists(f"{wt}/NOTES.md"):
     shutil.copy(f"{wt}/NOTES.md", f"{dst}/NOTES.md")
-meta = dict(id=sid, property=prop, needs_to_manifest=needs,
+meta = dict(id=sid + suffix, property=prop, needs_to_manifest=needs,
             confirmed=dict(how="tools/confirm_seed.sh in the scratch worktree: demo exits 1 with the change and 0 without; "
                                "existing suite 495 passed / same 17 failures with the change",
                            transcript=conf.replace("\x1b", "")))
